@@ -114,13 +114,7 @@ theorem stream_roundtrip_ustar (es : List (Entry × List (List Nat))) (hes : ∀
     ∃ rbs fmt, tarRead false (writeArchive .ustar es bpb bilb) 0 LA.Gen.CodecConsts.ARCHIVE_FORMAT_TAR []
         = ⟨fmt, rbs, .eof, rbs.length + 1⟩ ∧
       AllPairs ReadsBackAs (es.filter fun ec => ustarAccepted ec.1) rbs := by
-  unfold writeArchive
-  simp only [closeBytes]
-  rw [List.append_assoc, List.replicate_append_replicate]
-  obtain ⟨rbs, fmt, h, hall⟩ := tarRead_entries es hes {} (1024 + clientPad ((writeEntries .ustar {} es).1 ++ List.replicate 1024 0).length bpb bilb)
-    0 LA.Gen.CodecConsts.ARCHIVE_FORMAT_TAR [] (by omega)
-  refine ⟨rbs, fmt, ?_, hall⟩
-  rw [h]; simp
+  exact LA.C10.refused_keeps_archive_readable_ustar es hes bpb bilb
 
 /-- The framed body depends only on the concatenation of the chunks, not on the chunking. -/
 theorem body_independent_of_chunking (size : Nat) (c1 c2 : List (List Nat)) (h : c1.flatten = c2.flatten) :
